@@ -107,6 +107,21 @@ def _run_pred(eng, st, fr, t, items, clo_idx, by_ref, decide, finish):
                 out.append((s2, TOP))
                 continue
             v = eng.resolve(s2, v)
+            if isinstance(v, fdai.SymV) and len(items) <= 40:
+                # the predicate's answer for this item is not known (it asked an unknown function about an unknown value):
+                # both answers are followed, each recorded as an assumption like a branch on that value
+                fr2 = s2.frames[-1]
+                for val in (True, False):
+                    s3 = eng.fork(s2) if val else s2
+                    f3 = s3.frames[-1]
+                    s3.facts[v.id] = K(val)
+                    s3.trace.append(fdai.Event("assume", "sym", None, (fdai.snapshot(v), val), f3.bi, (t or {}).get("line"), len(s3.frames), f3.body.npath if f3.body else "?"))
+                    d = decide(i, val, s3)
+                    if d[0] == "stop":
+                        out.append((s3, d[1]))
+                    else:
+                        work.append((s3, i + 1))
+                continue
             if not isinstance(v, K):
                 out.append((s2, s2.fresh(("iter-undecided",))))
                 continue
